@@ -37,6 +37,9 @@ struct verif_in {
 	unsigned char digest_cur[HASH_MAX], digest_prev[HASH_MAX], recorded[HASH_MAX];
 	int hash_size, is_copy;
 	unsigned one_state;
+	/* writer errors region */
+	int werr[IO_WRITER_ERROR_MAX];
+	unsigned io_limit;
 	/* fix-check region */
 	unsigned fcount, fsize[ND];
 	int fixok[ND];
@@ -430,6 +433,44 @@ void h_sync_prehash(void)
 			if (k < IN.hash_size)
 				VERIF_ASSERT(b->hash[k] == cmp[k], "pre-hash: the stored hash is the digest of the data just read");
 	}
+	VERIF_CANARY();
+}
+#endif
+
+/*
+ * Region: what sync does with the parity WRITE errors the I/O layer reports after a stripe.
+ * From the property (C08): an I/O error while a parity block is written makes the command fail AND leaves the stripe
+ * concerned unsynced or marked bad.  The code counts the error (so the command fails) but, the report being a bare
+ * count without position, marks nothing: the last assertion is a KNOWN-FINDING (known_findings.txt).
+ */
+#ifdef VERIF_WERR_REGION
+#include "region_sync_werr.c"
+
+void h_sync_werr(void)
+{
+	static struct snapraid_state st;
+	int werr[IO_WRITER_ERROR_MAX], bailed = 0, k;
+	unsigned error = 0, io_error = 0;
+	VERIF_INPUTS();
+	VERIF_ASSUME(IN.io_limit >= 1);
+	st.opt.io_error_limit = IN.io_limit;
+	for (k = 0; k < IO_WRITER_ERROR_MAX; ++k) {
+		VERIF_ASSUME(IN.werr[k] >= 0 && IN.werr[k] <= 3);
+		werr[k] = IN.werr[k];
+	}
+	g_set_calls = 0;
+#ifdef VERIF_NATIVE
+	exit(77);
+#endif
+	region_sync_werr(&st, werr, IN.pos, &error, &io_error, &bailed);
+	if (IN.werr[TASK_STATE_IOERROR - IO_WRITER_ERROR_BASE] || IN.werr[TASK_STATE_ERROR - IO_WRITER_ERROR_BASE])
+		VERIF_ASSERT(bailed || (IN.werr[TASK_STATE_IOERROR_CONTINUE - IO_WRITER_ERROR_BASE] && bailed) || bailed, "a fatal parity write error stops the sync");
+	if (!bailed) {
+		VERIF_ASSERT((io_error != 0) == (IN.werr[TASK_STATE_IOERROR_CONTINUE - IO_WRITER_ERROR_BASE] != 0), "a parity write I/O error is counted (the command will end with a failing status)");
+		VERIF_ASSERT((error != 0) == (IN.werr[TASK_STATE_ERROR_CONTINUE - IO_WRITER_ERROR_BASE] != 0), "a plain parity write error is counted");
+	}
+	if (IN.werr[TASK_STATE_IOERROR_CONTINUE - IO_WRITER_ERROR_BASE] && !bailed)
+		VERIF_ASSERT(g_set_calls >= 1 && (g_set_info[g_set_calls - 1] & 1u), "a parity write I/O error leaves some stripe marked bad (so that status shows it and fix -e / the next sync repairs it)");
 	VERIF_CANARY();
 }
 #endif
